@@ -516,6 +516,10 @@ func makeIntArshaler(t reflect.Type) *arshaler {
 				// For historical reasons, v1 parsed a quoted number
 				// according to the Go syntax and permitted a quoted null.
 				// See https://go.dev/issue/75619
+				// However, v1 only did so for input starting like a JSON number.
+				if len(val) > 0 && val[0] != '-' && (val[0] < '0' || val[0] > '9') && string(val) != "null" {
+					return newUnmarshalErrorAfterWithValue(dec, t, strconv.ErrSyntax)
+				}
 				n, err := strconv.ParseInt(string(val), 10, bits)
 				if err != nil {
 					if string(val) == "null" {
@@ -615,6 +619,10 @@ func makeUintArshaler(t reflect.Type) *arshaler {
 				// For historical reasons, v1 parsed a quoted number
 				// according to the Go syntax and permitted a quoted null.
 				// See https://go.dev/issue/75619
+				// However, v1 only did so for input starting like a JSON number.
+				if len(val) > 0 && val[0] != '-' && (val[0] < '0' || val[0] > '9') && string(val) != "null" {
+					return newUnmarshalErrorAfterWithValue(dec, t, strconv.ErrSyntax)
+				}
 				n, err := strconv.ParseUint(string(val), 10, bits)
 				if err != nil {
 					if string(val) == "null" {
@@ -738,6 +746,10 @@ func makeFloatArshaler(t reflect.Type) *arshaler {
 				// For historical reasons, v1 parsed a quoted number
 				// according to the Go syntax and permitted a quoted null.
 				// See https://go.dev/issue/75619
+				// However, v1 only did so for input starting like a JSON number.
+				if len(val) > 0 && val[0] != '-' && (val[0] < '0' || val[0] > '9') && string(val) != "null" {
+					return newUnmarshalErrorAfterWithValue(dec, t, strconv.ErrSyntax)
+				}
 				n, err := strconv.ParseFloat(string(val), bits)
 				if err != nil {
 					if string(val) == "null" {
